@@ -152,6 +152,11 @@ Init ==
 
 Quiescent == pend = <<>>
 LastTorn(d) == d.ch # <<>> /\ IsTorn(d.ch[Len(d.ch)])
+\* the writer cuts the file at the first block that is not completely there (strict design: only ever the last
+\* chunk; as built, torn pieces can lie in the middle and a clobbered file has no readable block at all)
+NeedsCut(d) == d.clob \/ FirstTorn(d.ch) > 0
+CutTorn(d) == IF d.clob THEN [d EXCEPT !.ch = <<>>, !.clob = FALSE]
+              ELSE IF FirstTorn(d.ch) > 0 THEN [d EXCEPT !.ch = SubSeq(@, 1, FirstTorn(d.ch) - 1)] ELSE d
 CreateOps(nm) == <<"create", "hdr0">> \o (IF nm THEN <<"name">> ELSE <<>>)
 
 Begin(name, ops) ==
@@ -176,9 +181,10 @@ Open(nm) ==
      \/ /\ disk.ex /\ (disk.hd = 2 \/ (disk.hd = 1 /\ "TornCreate" \in Dev))
         /\ w' = [ClosedW EXCEPT !.open = TRUE, !.nb = disk.nb, !.ne = disk.ne]
         /\ \E keepTorn \in Alt("AppendAfterTorn") :
-             Begin("open", IF LastTorn(disk) /\ ~keepTorn THEN <<"trunc">> ELSE <<>>)
+             \E heal \in (IF disk.clob THEN BOOLEAN ELSE {TRUE}) :
+               Begin("open", IF NeedsCut(disk) /\ ~keepTorn /\ heal THEN <<"trunc">> ELSE <<>>)
 
-FlushOps == (IF w.dirty /\ LastTorn(disk) THEN <<"trunc">> ELSE <<>>) \o <<"bh", "pay", "hdr">>
+FlushOps == (IF w.dirty /\ LastTorn(disk) /\ ~disk.clob THEN <<"trunc">> ELSE <<>>) \o <<"bh", "pay", "hdr">>
 
 \* FileWriter.WriteEntry.  fl = the buffer reached the block size with this entry (decided by the
 \* byte sizes, which the model does not carry: the exhaustive configuration takes fl from the
@@ -253,7 +259,7 @@ DiskAfter(op) ==
   CASE op = "create" -> [NoDisk EXCEPT !.ex = TRUE]
     [] op = "hdr0"   -> [disk EXCEPT !.hd = IF Len(pend) > 1 /\ pend[2] = "name" THEN 1 ELSE 2]
     [] op = "name"   -> [disk EXCEPT !.hd = 2]
-    [] op = "trunc"  -> [disk EXCEPT !.ch = DropLast(@)]
+    [] op = "trunc"  -> CutTorn(disk)
     [] op = "bh"     -> IF w.pos = "mis" THEN disk     \* (FileStep adds: the file header may be overwritten)
                         ELSE [disk EXCEPT !.ch = Append(@, [BlockOf(w.cur) EXCEPT !.t = "tbh"])]
     [] op = "pay"    -> IF w.pos = "mis" THEN disk
